@@ -187,7 +187,7 @@ def _subscript_sv(ex, base, key, line):
     return None
 
 
-W.user_index = _subscript_sv
+W.index_hooks.append(_subscript_sv)
 
 
 def reports_faithful(c, view, since):
